@@ -371,8 +371,8 @@ class DynamicObject:
 
         def _clip(err: float) -> float:
             """Clip [-2pi, 2pi] to [0, pi]"""
-            if err < 0:
-                err += -np.pi * (err // np.pi)
+            if err < -np.pi:
+                err += 2 * np.pi
             elif err > np.pi:
                 err -= 2 * np.pi
             return err
